@@ -958,6 +958,53 @@ def r10(ctx, cfg):
                             contains(v, lambda x: x[0] == "call" and x[1] == "cw_storage_plus::Item::save") for site, v in q.success_return_sites(P, f))
         ctx.ob(R, key, "setup-stores-the-given-parameters", ok, "setup does not save the given StakingInfo (or can succeed without)", fn=f,
                sample="STAKING_INFO.save(prefixed(storage, NAMESPACE_STAKING), &staking_info)?")
+    # the read side of the same records: get_staking_info is what setup stored (defaults only when nothing was), get_validator
+    # is the map entry under the address asked for, get_validators is the whole list.  Stated on what the answer is made of,
+    # not on a spelling: `x?.unwrap_or_default()`, `match x? { Some(v) => v, None => Default::default() }`,
+    # `x.map_err(Into::into)`, a loop that pushes every element.
+    from rules.C01 import DENY_ADAPTERS
+    CONV = ("map_err", "into", "from", "unwrap_or_default", "collect", "default", "new", "with_capacity")
+
+    def only_calls(o, allowed_keys):
+        cs = []
+        contains(o, lambda x: cs.append(x[1]) if x[0] in ("call", "mutby") else False)
+        return all(c in allowed_keys or c.rsplit("::", 1)[-1] in CONV or c.rsplit("::", 1)[-1] == "push" for c in cs)
+    g = ctx.need_fn(R, SK + "get_staking_info")
+    if g is not None:
+        def is_load(x):
+            return x[0] == "call" and x[1] == "cw_storage_plus::Item::may_load" and peel(x[2][0]) == ("item", "staking::STAKING_INFO") and is_param(x[2][1], "staking_storage")
+        bad = []
+        n = 0
+        for val, conds, site in q.value_cases(P, g, 0):
+            o = peel(val)
+            if o[0] == "call" and o[1].endswith("FromResidual::from_residual") or (o[0] == "agg" and o[1].endswith("Result::Err")):
+                continue
+            n += 1
+            pay = o[2][0][1] if o[0] == "agg" and o[1].endswith("Result::Ok") and o[2] else o
+            if contains(pay, is_load) and only_calls(pay, ("cw_storage_plus::Item::may_load",)):
+                continue
+            if not contains(pay, lambda x: x[0] == "param") and only_calls(pay, ()) and any(c[0] == "variant_in" and c[2] == ("None",) and contains(c[1], is_load) for e, c in conds):
+                continue
+            bad.append(fmt(pay)[:80])
+        ctx.ob(R, g.key, "answers-the-stored-record", n >= 1 and not bad, "get_staking_info can answer %s" % bad, fn=g, sample="STAKING_INFO.may_load(storage)?.unwrap_or_default()")
+    g = ctx.need_fn(R, SK + "get_validator")
+    if g is not None:
+        def is_vload(x):
+            return x[0] == "call" and x[1] == "cw_storage_plus::Map::may_load" and peel(x[2][0]) == ("item", "staking::VALIDATOR_MAP") and is_param(x[2][1], "staking_storage") and is_param(x[2][2], "address")
+        vals = q.success_payloads(P, g)
+        ok = bool(vals) and all(contains(v, is_vload) and only_calls(v, ("cw_storage_plus::Map::may_load",)) for v in vals)
+        ctx.ob(R, g.key, "answers-the-stored-record", ok, "get_validator answers %s" % [fmt(peel(v))[:80] for v in vals], fn=g, sample="VALIDATOR_MAP.may_load(storage, address)?")
+    g = ctx.need_fn(R, SK + "get_validators")
+    if g is not None:
+        def is_iter(x):
+            return x[0] == "call" and x[1] == "cw_storage_plus::Deque::iter" and peel(x[2][0]) == ("item", "staking::VALIDATORS") and is_param(x[2][1], "staking_storage")
+        vals = q.success_payloads(P, g)
+        cut = [t["callee"]["name"] for h in F.lexical(g.key) for b, t in h.calls() if t["callee"]["name"] in DENY_ADAPTERS and not t["callee"]["local"]]
+        cond_push = [t["line"] for h in F.lexical(g.key) for b, t in h.calls() if t["callee"]["name"] == "push" and
+                     [c for e, c in q.dominating_conditions(P, h, b) if c[0] == "bool" and not q.is_derived(c)]]
+        ok = bool(vals) and all(contains(v, is_iter) and only_calls(v, ("cw_storage_plus::Deque::iter",)) for v in vals) and not cut and not cond_push
+        ctx.ob(R, g.key, "answers-the-stored-record", ok, "get_validators answers %s%s" % ([fmt(v)[:80] for v in vals], " through %s" % (cut or cond_push) if (cut or cond_push) else ""), fn=g,
+               sample="every element of VALIDATORS.iter(storage)?")
     key = SK + "add_validator"
     f = ctx.need_fn(R, key)
     if f is not None:
